@@ -44,6 +44,8 @@ Dedup(s) ==
        IF \E i \in 1..Len(r) : r[i] = x THEN r ELSE Append(r, x)
 
 SeqToSet(s) == {s[i] : i \in 1..Len(s)}
+\* 0-based position of x in s, -1 when absent
+IndexOf0(s, x) == IF \E i \in 1..Len(s) : s[i] = x THEN (CHOOSE i \in 1..Len(s) : s[i] = x) - 1 ELSE -1
 HasNaN(s) == \E i \in 1..Len(s) : IsNaN(s[i])
 
 \* ------------------------------------------------------- plain reductions
@@ -163,14 +165,18 @@ Specified(func, s) ==
 (* Result: one value per slot.  Arg-reductions give the 0-based GLOBAL     *)
 (* position.                                                               *)
 (***************************************************************************)
+\* the slot receives the user's fill (label absent, or fewer than min_count valid members)
+RefIsFill(vals, codes, g, minCount) ==
+  LET mem == Members(vals, codes, g) IN
+  mem = <<>> \/ (minCount > 0 /\ CountNotNull(mem) < minCount)
+
 RefSlot(func, vals, codes, g, fill, minCount, kw) ==
   LET pos == Positions(codes, g)
       mem == Pick(vals, pos)
       nvalid == CountNotNull(mem)
       filled == IF fill.some THEN fill.v ELSE Unspec
   IN
-  IF mem = <<>> THEN filled
-  ELSE IF minCount > 0 /\ nvalid < minCount THEN filled
+  IF RefIsFill(vals, codes, g, minCount) THEN filled
   ELSE IF minCount < 0 /\ nvalid = 0 /\ fill.some THEN Unspec
        \* implicit min_count: flox documents that the fill may also be applied
        \* to groups with no valid member; NumPy's answer and the fill are both
